@@ -7,7 +7,7 @@ from framework import Check
 from props import c10
 
 THEOREMS = ["Fteik.C15_ray_endpoints", "Fteik.C15_stored_vertices_bounded", "Fteik.C15_noncrossing_step_stores_nothing",
-            "Fteik.C15_shrink_lands_on_face", "Fteik.C15_shrink_factor_range"]
+            "Fteik.C15_shrink_lands_on_face", "Fteik.C15_shrink_factor_range", "Fteik.C15_source_cell_is_a_cell"]
 
 
 def run(tier):
@@ -16,7 +16,7 @@ def run(tier):
                "classes x end points incl. every kind of boundary, budgets default and tiny, under a watchdog; distinct = "
                "distinct (mode, ndim, medium, source class, end class, budget class, outcome) signatures")
     r = G.rng_for(C.seed(), "C15")
-    ck.lean(["FteikVerif.Props.C15"], THEOREMS)
+    ck.lean(["FteikVerif.Props.C15", "FteikVerif.Props.C15b"], THEOREMS)
     c10.run_rays(ck, r, tier, honor=True)
     # corpus: reproducers of the repaired defect C15-far-boundary-source-no-termination (fix 162f974): a source exactly on the far
     # boundary of an axis; before the fix the ray oscillated inside the last cell for ever (no vertex stored, budget never used)
@@ -38,7 +38,9 @@ def run(tier):
                     k: (np.asarray(v).tolist() if isinstance(v, np.ndarray) else v) for k, v in t.items()}})
     ck.proved = ["a returned polyline starts exactly at the source, ends exactly at the end point and stores at most max_step rows",
                  "the shrunk step ends exactly on the face that defined the shrink factor, which lies in [0,1) (exact arithmetic)",
-                 "a non-crossing iteration stores nothing (and therefore does not consume budget)"]
+                 "a non-crossing iteration stores nothing (and therefore does not consume budget)",
+                 "the source-cell index that ends the loop always denotes a cell of the grid, also for a source on the far "
+                 "boundary (after fix 162f974; before it the exit could never be taken for such sources)"]
     ck.partial = ["termination: only the number of *stored* vertices is bounded by max_step; iterations that do not cross a "
                   "face are not counted, so termination is not provable without an assumption on the gradient field - the model "
                   "runs with fuel, the check runs the real code under a watchdog"]
